@@ -84,6 +84,18 @@ CLAIMED["C14"] = (
     "delimiters are outside the property.",
     "DESIGN §5 C14")
 
+CLAIMED["C16"] = (
+    "TLA+ spec (Cmp.tla: eq/cmp element loops refine = and the lexicographic order; order laws as TLC ASSUMEs) "
+    "model-checked by TLC; every explored pair replayed through all eq_*/cmp_* instantiations, Option twins and "
+    "const_eq!/const_cmp!/_for!/assertc_* forms; recorded random comparisons validated against Trace_Cmp.tla",
+    "Exhaustive within bounds: all pairs of sequences over three ordered digits up to length 3 (thorough 4), all "
+    "pairs of nested sequences (slices of str / byte slices), all 49 pairs of the seven anchor values "
+    "MIN..MAX of every integer type, bool, char (around the surrogate gap), NonZero, Ordering, all Option "
+    "combinations and range pairs: ~365k comparisons on the real code per quick run, plus antisymmetry and "
+    "Equal<=>eq monitors; 20k-320k recorded comparisons on longer sequences accepted by the trace spec.",
+    "Trusted: TLC; the strictly increasing digit->value maps; std guard (Ord/PartialEq) on every vector.",
+    "DESIGN §5 C16")
+
 NOT_YET = {}
 
 def main():
